@@ -3,6 +3,7 @@
 //!
 //! Script: `inc_at op*` (strings are length-prefixed UTF-8 byte lists) with
 //!   1 <key> val          configuration entry  "key": val
+//!   12 <key> form n (<sub> val)*n   mapping-valued entry  "key": {"sub": val, ..}  (form even: flow, odd: block YAML)
 //!   2 <path>             module with the dotted path `path`
 //!   3 m <name> ty        typed read   prop::<T>(name)            on module m (mod #modules)
 //!   4 m <name> ty val    typed write  prop::<T>(name)?.set(val)  on module m
@@ -108,20 +109,60 @@ fn lp(out: &mut Vec<u64>, s: &str) {
     out.extend(s.bytes().map(u64::from));
 }
 
-fn yaml_text(entries: &[(String, u64)]) -> String {
+/// an entry's value: a number, or a hand-nested one-level mapping (flow or block form)
+#[derive(Clone)]
+enum Val {
+    Num(u64),
+    Map(u64, Vec<(String, u64)>),
+}
+
+fn quoted(t: &mut String, k: &str) {
+    t.push('"');
+    for c in k.chars() {
+        match c {
+            '\\' => t.push_str("\\\\"),
+            '"' => t.push_str("\\\""),
+            c => t.push(c),
+        }
+    }
+    t.push('"');
+}
+
+fn yaml_text(entries: &[(String, Val)]) -> String {
     let mut t = String::new();
     for (k, v) in entries {
-        t.push('"');
-        for c in k.chars() {
-            match c {
-                '\\' => t.push_str("\\\\"),
-                '"' => t.push_str("\\\""),
-                c => t.push(c),
+        quoted(&mut t, k);
+        match v {
+            Val::Num(v) => {
+                t.push_str(": ");
+                t.push_str(&v.to_string());
+                t.push('\n');
+            }
+            Val::Map(form, subs) if subs.is_empty() || form % 2 == 0 => {
+                // flow form:  "k": {"a": 1, "b": 2}
+                t.push_str(": {");
+                for (i, (sk, sv)) in subs.iter().enumerate() {
+                    if i > 0 {
+                        t.push_str(", ");
+                    }
+                    quoted(&mut t, sk);
+                    t.push_str(": ");
+                    t.push_str(&sv.to_string());
+                }
+                t.push_str("}\n");
+            }
+            Val::Map(_, subs) => {
+                // block form
+                t.push_str(":\n");
+                for (sk, sv) in subs {
+                    t.push_str("  ");
+                    quoted(&mut t, sk);
+                    t.push_str(": ");
+                    t.push_str(&sv.to_string());
+                    t.push('\n');
+                }
             }
         }
-        t.push_str("\": ");
-        t.push_str(&v.to_string());
-        t.push('\n');
     }
     t
 }
@@ -326,7 +367,7 @@ fn run_ops(out: &mut Vec<u64>, acc: &mut impl Access, nmods: usize, ops: &[Op]) 
                     o.push(5);
                     enc_opt_value(&mut o, acc.raw(m, name).as_value());
                 }
-                Op::Include(k, v) => acc.include(&yaml_text(&[(k.clone(), *v)])),
+                Op::Include(k, v) => acc.include(&yaml_text(&[(k.clone(), Val::Num(*v))])),
             }
             o
         }));
@@ -354,7 +395,7 @@ fn run_line(nums: &[u64]) -> Vec<u64> {
         return vec![7];
     }
     let inc_at = c.next();
-    let mut groups: Vec<(u64, Vec<(String, u64)>)> = vec![(inc_at, Vec::new())];
+    let mut groups: Vec<(u64, Vec<(String, Val)>)> = vec![(inc_at, Vec::new())];
     let mut paths: Vec<String> = Vec::new();
     let mut ops: Vec<Op> = Vec::new();
     let mut valid = true;
@@ -373,7 +414,23 @@ fn run_line(nums: &[u64]) -> Vec<u64> {
                 c.next();
                 let k = text(&mut c, &mut valid);
                 let v = c.next();
-                groups.last_mut().unwrap().1.push((k, v));
+                groups.last_mut().unwrap().1.push((k, Val::Num(v)));
+            }
+            Some(12) => {
+                c.next();
+                let k = text(&mut c, &mut valid);
+                let form = c.next();
+                let n = c.next();
+                let mut subs = Vec::new();
+                for _ in 0..n {
+                    if c.done() {
+                        break;
+                    }
+                    let sk = text(&mut c, &mut valid);
+                    let sv = c.next();
+                    subs.push((sk, sv));
+                }
+                groups.last_mut().unwrap().1.push((k, Val::Map(form, subs)));
             }
             Some(2) => {
                 c.next();
